@@ -348,7 +348,11 @@ def shard(ctx):
             src, _ = emit_program(prog["main"])
         main = prog["main"]
         rep_p = None
+        skip_program = False
         for rule in RULES:
+            if skip_program:
+                r.inconc("original_" + outcome(rep_p)[0])
+                break
             sites, skipped = count_sites_prog(prog, rule)
             if skipped:
                 r.count(rule, skipped, group="sites_skipped_as_not_applicable")
@@ -370,6 +374,9 @@ def shard(ctx):
                     rsrc, _ = emit_program(new_prog["main"])
                 if rep_p is None:
                     rep_p = w.run(src, budget=400000)
+                if outcome(rep_p)[0] in ("watchdog", "harness_error", "died", "budget"):
+                    skip_program = True
+                    break
                 rep_r = w.run(rsrc, budget=600000)
                 v = compare(rep_p, rep_r)
                 if v is not None and v[0] == "INCONCLUSIVE":
